@@ -70,6 +70,107 @@ Proof.
 Qed.
 Transparent to_le.
 
+(** * decimal leaves narrower than 16 bytes (the layouts of other writers:
+    FIXED_LEN_BYTE_ARRAY(n), BYTE_ARRAY of minimal length): the sign extension
+    of bigEndianToLittleEndian16 *)
+Lemma to_le_snoc n : forall x, to_le (S n) x = to_le n x ++ [(x / 256 ^ N.of_nat n) mod 256].
+Proof.
+  induction n as [|n IH]; intros x.
+  - cbn. now rewrite N.div_1_r.
+  - change (to_le (S (S n)) x) with ((x mod 256) :: to_le (S n) (x / 256)).
+    rewrite IH. cbn [to_le app]. f_equal. f_equal. f_equal. f_equal.
+    rewrite N.div_div by (try lia; apply N.pow_nonzero; lia).
+    f_equal. rewrite Nat2N.inj_succ, N.pow_succ_r'. reflexivity.
+Qed.
+
+Lemma of_le_repeat0 k : of_le (repeat 0 k) = 0.
+Proof. induction k; cbn [repeat of_le]; lia. Qed.
+
+Lemma of_le_repeat255 k : of_le (repeat 255 k) = 256 ^ N.of_nat k - 1.
+Proof.
+  induction k as [|k IH]; [reflexivity|].
+  cbn [repeat of_le]. rewrite IH, Nat2N.inj_succ, N.pow_succ_r'.
+  assert (0 < 256 ^ N.of_nat k) by (apply N.neq_0_lt_0, N.pow_nonzero; lia). lia.
+Qed.
+
+(* the 16-byte little-endian form of n big-endian bytes *)
+Lemma be_to_le16_narrow n w : w < 256 ^ N.of_nat (S n) -> (S n <= 16)%nat ->
+  of_le (be_to_le16 (rev (to_le (S n) w))) =
+  w + 256 ^ N.of_nat (S n) * (if 128 * 256 ^ N.of_nat n <=? w then 256 ^ N.of_nat (16 - S n) - 1 else 0).
+Proof.
+  intros Hw Hn. unfold be_to_le16. cbv zeta.
+  rewrite rev_involutive, to_le_length.
+  rewrite of_le_app, to_le_length, of_le_to_le by exact Hw.
+  f_equal. f_equal.
+  rewrite to_le_snoc, rev_app_distr. cbn [rev app].
+  assert (Hp : 0 < 256 ^ N.of_nat n) by (apply N.neq_0_lt_0, N.pow_nonzero; lia).
+  rewrite Nat2N.inj_succ, N.pow_succ_r' in Hw.
+  set (p := 256 ^ N.of_nat n) in *. clearbody p.
+  assert (Hp0 : p <> 0) by lia.
+  assert (Hq : w / p < 256). { apply N.div_lt_upper_bound; lia. }
+  rewrite (N.mod_small _ _ Hq).
+  assert (E : (128 <=? w / p) = (128 * p <=? w)).
+  { destruct (N.leb_spec 128 (w / p)) as [H|H];
+    destruct (N.leb_spec (128 * p) w) as [H'|H']; try reflexivity; exfalso.
+    - apply (N.mul_le_mono_r _ _ p) in H.
+      pose proof (N.mul_div_le w p Hp0). lia.
+    - assert (128 <= w / p) by (apply N.div_le_lower_bound; lia). lia. }
+  rewrite E. destruct (128 * p <=? w).
+  - apply of_le_repeat255.
+  - apply of_le_repeat0.
+Qed.
+
+Lemma pow256 k : 256 ^ N.of_nat k = 2 ^ (8 * N.of_nat k).
+Proof. change 256 with (2 ^ 8). now rewrite <- N.pow_mul_r. Qed.
+
+Lemma dec_narrow_back n z : (1 <= n <= 16)%nat -> in_sint (8 * N.of_nat n) z ->
+  sintZ 128 (of_le (be_to_le16 (rev (to_le n (wrapZ (8 * N.of_nat n) z))))) = z.
+Proof.
+  intros Hn Hz. destruct n as [|m]; [lia|].
+  set (k := 8 * N.of_nat (S m)) in *.
+  assert (Hk : 0 < k) by (unfold k; lia).
+  pose proof (wrapZ_lt k z) as Hw.
+  rewrite be_to_le16_narrow; [| rewrite pow256; exact Hw | lia].
+  pose proof (sintZ_wrapZ k z Hk Hz) as Hs. unfold sintZ in Hs.
+  set (w := wrapZ k z) in *.
+  assert (Ehalf : 128 * 256 ^ N.of_nat m = 2 ^ (k - 1)).
+  { rewrite pow256. change 128 with (2 ^ 7). rewrite <- N.pow_add_r. f_equal. unfold k. lia. }
+  assert (EP : 256 ^ N.of_nat (S m) = 2 ^ k) by (rewrite pow256; reflexivity).
+  assert (EPQ : 2 ^ k * 256 ^ N.of_nat (16 - S m) = 2 ^ 128).
+  { rewrite pow256, <- N.pow_add_r. f_equal. unfold k. lia. }
+  assert (Hq : 0 < 256 ^ N.of_nat (16 - S m)) by (apply N.neq_0_lt_0, N.pow_nonzero; lia).
+  assert (Hle : 2 ^ k <= 2 ^ 128) by (apply N.pow_le_mono_r; unfold k; lia).
+  assert (Hhalf : 2 * 2 ^ (k - 1) = 2 ^ k).
+  { rewrite <- N.pow_succ_r'. f_equal. lia. }
+  rewrite Ehalf, EP.
+  assert (ZP : Z.of_N (2 ^ k) = (2 ^ Z.of_N k)%Z) by (now rewrite N2Z.inj_pow).
+  unfold sintZ.
+  destruct (N.leb_spec (2 ^ (k - 1)) w) as [Hneg|Hpos].
+  - (* negative *)
+    destruct (N.ltb_spec w (2 ^ (k - 1))) as [H|_]; [lia|].
+    rewrite N.mul_sub_distr_l, EPQ, N.mul_1_r.
+    assert (Et : w + (2 ^ 128 - 2 ^ k) = w + 2 ^ 128 - 2 ^ k) by lia. rewrite Et.
+    destruct (N.ltb_spec (w + 2 ^ 128 - 2 ^ k) (2 ^ (128 - 1))) as [H|H].
+    + exfalso. change (2 ^ (128 - 1)) with (2 ^ 127) in H.
+      assert (2 * 2 ^ 127 = 2 ^ 128) by reflexivity.
+      assert (2 ^ (k - 1) <= 2 ^ 127) by (apply N.pow_le_mono_r; unfold k; lia). lia.
+    + rewrite N2Z.inj_sub, N2Z.inj_add by lia. rewrite ZP in *.
+      change (Z.of_N (2 ^ 128)) with (2 ^ Z.of_N 128)%Z. lia.
+  - destruct (N.ltb_spec w (2 ^ (k - 1))) as [_|H]; [|lia].
+    rewrite N.mul_0_r, N.add_0_r.
+    destruct (N.ltb_spec w (2 ^ (128 - 1))) as [H|H]; [exact Hs|].
+    exfalso. assert (2 ^ (k - 1) <= 2 ^ (128 - 1)) by (apply N.pow_le_mono_r; unfold k; lia). lia.
+Qed.
+
+Lemma of_parquet_narrow_decimal n precision scale z : (1 <= n <= 16)%nat -> in_sint (8 * N.of_nat n) z ->
+  of_parquet (PTDec D16 precision scale) (PBytes (rev (to_le n (wrapZ (8 * N.of_nat n) z)))) =
+  Some (VDec D16 (Z.to_N scale mod 256) z).
+Proof.
+  intros Hn Hz. unfold of_parquet. rewrite rev_length, to_le_length.
+  destruct (Nat.ltb_spec 16 n) as [H|_]; [lia|].
+  now rewrite dec_narrow_back.
+Qed.
+
 (** * induction over schemas *)
 Section SchemaInd.
   Variable P : schema -> Prop.
